@@ -26,6 +26,15 @@ func recordH2(r *hk.Run, o h2obs) {
 		Call: o.Call, CallErr: o.CallErr, Body: o.Body, BodyErr: o.BodyErr, Returned: o.Returned, Quiesced: o.Quiesced,
 		Stuck: o.Stuck, Leaked: o.Leaked, ReqBody: o.ReqBody, ReqBodyClosed: o.ReqBodyClosed, ReadsAfter: o.ReadsAfter,
 		FollowOK: o.FollowOK, FollowErr: o.FollowErr, Complete: o.Complete, Harness: o.Harness})
+	// the peer must be told: a stream whose HEADERS went out and which was not closed on both sides
+	// when the context ended has to be reset (RFC 9113 8.1.1 / 5.4.2), or the peer keeps working on it
+	if o.Harness == "" && o.Returned && o.StreamSeen && !o.Complete && !o.Racy && o.Kind != "none" && !realTimer(o.Kind) && o.Rst != 8 {
+		r.Fail(hk.Failure{Sig: fmt.Sprintf("no-rst:h2:%s:%s:after=%s", o.Spec.Name, o.Kind, o.StepName),
+			What: fmt.Sprintf("the request's stream was open at the peer when the context ended but no RST_STREAM(CANCEL) arrived (rst code %d)", o.Rst), Input: o})
+	}
+	if o.Harness == "" && o.Returned && !o.StreamSeen && o.Rst >= 0 {
+		r.Fail(hk.Failure{Sig: fmt.Sprintf("stray-rst:h2:%s:%s:after=%s", o.Spec.Name, o.Kind, o.StepName), What: "RST_STREAM for a stream the peer never saw", Input: o})
+	}
 	if o.Harness == "" && o.Returned && o.ConnClosed {
 		r.Fail(hk.Failure{Sig: fmt.Sprintf("conn-closed:h2:%s:%s:after=%s", o.Spec.Name, o.Kind, o.StepName),
 			What: "the HTTP/2 connection, which other requests share, was closed because one request was cancelled", Input: o})
